@@ -752,6 +752,9 @@ func runC08(a vh.Args, o *vh.Oracle, r *vh.Result) error {
 	if err := c08ExtractSysAll(a, r, rng); err != nil {
 		return err
 	}
+	if err := c08ExtractMoreAll(a, r, rng); err != nil {
+		return err
+	}
 	return c08Extract(a, o, r, rng)
 }
 
@@ -788,6 +791,10 @@ func c08Replay(a vh.Args, o *vh.Oracle, r *vh.Result, c *c08Case) error {
 		return c08Concurrent(a, r, c)
 	case "store-concurrent-kill":
 		return c08ConcurrentKill(a, r, c)
+	case "extract-inplace-existing":
+		return c08InplaceExisting(a, r, c)
+	case "extract-noroom":
+		return c08NoRoom(a, r, c)
 	case "extract-syscall-kill":
 		return c08ExtractSys(a, r, c)
 	case "extract-kill", "extract-inplace", "extract-signal":
